@@ -70,6 +70,8 @@ var apiFiles = []treeFile{
 	{Name: "bad-in-shadowed-arg", Src: "PARTIAL-OUTPUT-MARKER @component(\"~whoami\", {who: who.nope()}) after"},
 	// a component argument that fails with one data map and is fine with the next (the page stays what it is)
 	{Name: "argdep", Src: "arg:@component(\"~whoami\", {k: u.name.upper()})|@component(\"~whoami\")"},
+	// a value behind a pointer the caller keeps and changes between calls: what is visible is the value at the time of the call
+	{Name: "shared", Src: "sh:{{ sp.name }}|{{ sp.tags }}"},
 	// number literals that reach ++ / -- (a loaded program is evaluated many times; a literal is the same number every time)
 	{Name: "floatdec", Src: "dec:{{ p = 10.5 }}{{ p-- }}|{{ p }}|@for(x = 2.5; x > 0.0; x--){{ x }};@end|{{ n = 3 }}{{ n++ }}{{ n }}|{{ 1.5-- }}{{ 7++ }}"},
 	// one template, rendered with arrays of different lengths: the loop object of every pass belongs to this render
@@ -128,6 +130,8 @@ func apiDataN(n int64) map[string]any {
 	return map[string]any{"who": apiWho(n), "items": []int{1, 2, 3}, "fresh": v.Interface(),
 		"ptr": &apiRec{Name: "p", Tags: []string{"a", "b"}}, "m": map[string]any{"k": apiRec{Name: "q"}, "l": []any{1, "x"}}}
 }
+
+var apiShared = &apiRec{}
 
 type apiCfg struct {
 	Dir       string `json:"dir"`
@@ -215,6 +219,7 @@ var fixedSigs = map[apiOp]string{
 	{"String", "floatdec"}:       "OUT dec:9.5|10.5|2.5;1.5;0.5;|43|0.58",
 	{"String", "usesfn"}:         "OUT fn:BO!|3, 0",
 	{"String", "argOk"}:          "OUT arg:Bo/3|Bo/3",
+	{"String", "shared"}:         "OUT sh:Bo|N",
 	{"String", "lastA"}:          "OUT last:1a.^|0",
 	{"String", "lastB"}:          "OUT last:1a,^2b.|01",
 	{"String", "lastC"}:          "OUT last:1a,^2b,3c.|012",
@@ -281,6 +286,10 @@ func (e *apiEnv) run(o apiOp) (sig string, body string, ok bool) {
 		page, data["v"] = "poly", []string{"x", "y"}
 	case "polyI":
 		page, data["v"] = "poly", 1234
+	case "shared": // (sequential histories only: the harness itself writes through the pointer)
+		apiShared.Name, apiShared.Tags = apiWho(dataN), []string{fmt.Sprint(dataN % 7)}
+		page, data["sp"] = "shared", apiShared
+		defer func() { sig = strings.Replace(sig, "|"+fmt.Sprint(dataN%7), "|N", 1) }()
 	case "argOk":
 		page, data["u"] = "argdep", map[string]any{"name": "n"}
 	case "argBad":
@@ -382,6 +391,7 @@ func (e *apiEnv) run(o apiOp) (sig string, body string, ok bool) {
 	delete(data, "v")
 	delete(data, "u")
 	delete(data, "ch")
+	delete(data, "sp")
 	if data != nil && dataN >= 0 && !reflect.DeepEqual(data, apiDataN(dataN)) {
 		sig += " DATA-MODIFIED"
 	}
